@@ -6,11 +6,25 @@ root = os.environ.get("VERIF_ROOT", "/verif")
 repo = "/repo/src/diagonal.works/b6"
 acc = os.path.join(root, "vkit", "access")
 rep = {}
+# Accessor files named after a check id (c12.go, c13_x.go) are added only to
+# that check's build, plus to checks that list them (one "pkg/file.go" per
+# line) in vkit/checks/<id>/ACCESS; all other accessor files go to every
+# build. A broken check-specific accessor can then only break its own check.
+import re
+lc0 = sys.argv[1] if len(sys.argv) > 1 else "all"
+extra_access = set()
+af = os.path.join(root, "vkit", "checks", lc0, "ACCESS")
+if os.path.exists(af):
+    extra_access = set(l.strip() for l in open(af) if l.strip() and not l.startswith("#"))
 for d, _, files in os.walk(acc):
     rel = os.path.relpath(d, acc)
     for f in files:
-        if f.endswith(".go"):
-            rep[os.path.join(repo, rel, "zz_verif_" + f)] = os.path.join(d, f)
+        if not f.endswith(".go"):
+            continue
+        m = re.match(r"^(c\d+)", f)
+        if m and lc0 != "all" and m.group(1) != lc0 and os.path.join(rel, f) not in extra_access:
+            continue
+        rep[os.path.join(repo, rel, "zz_verif_" + f)] = os.path.join(d, f)
 # Build-time source transforms (generated from the working tree on every run;
 # /repo is untouched). Each is a single-token substitution that does not change
 # behaviour on the harness inputs; if the token is not found the file is used
